@@ -154,6 +154,12 @@ func OracleC17(w *World, h *History) {
 			}
 		}
 		if carried == nil {
+			// "When the RPC completes, the given location will be updated with
+			// the channel that handled the request": an RPC that reached a
+			// handler was handled by a tunnel
+			if term := r.Terminal(); p.OptChannel && term != nil && len(r.Handlers) > 0 {
+				w.AddViolation("C17", "channel-identity-wrong", fmt.Sprintf("rpc %d (%s) was carried by a tunnel and has completed, but the location given to WithTunnelChannel is still empty", id, shapeNames[p.Shape]), map[string]string{"what": "location-not-written", "shape": shapeNames[p.Shape]}, term.Ret)
+			}
 			continue
 		}
 		if p.Via == "" && carried.Idx != p.Tunnel {
